@@ -18,7 +18,8 @@ ASSUMPTIONS = ["strict reader mc/rp66.py", "reference model mc/model.py and sche
 
 
 def shards(tier):
-    return [{'kind': k, 'mode': m} for k in KINDS for m in ('full', 'bare')]
+    return [{'kind': k, 'mode': m} for k in KINDS for m in ('full', 'bare')] + \
+        [{'kind': k, 'mode': 'rank2'} for k in lattice.RANK2_KINDS]
 
 
 def bound(tier, shard):
